@@ -1,6 +1,180 @@
-//! C10 — stub (to be written; see /verif/harness/AUTHORING.md and DESIGN.md §3 C10)
-use vengine::Property;
+//! C10 — a fitted Gaussian mixture is a valid mixture and yields valid probabilities.
+//!
+//! `data.rs` synthesises the training matrix and the query points of a case, `oracle.rs` fits
+//! `linfa_clustering::GaussianMixtureModel` and judges the model (weights, means, covariances,
+//! precisions) and `predict_proba` / `predict` against reference code of its own.
+
+pub mod data;
+pub mod oracle;
+
+use data::{Case, Comp, Degenerate, Init, Layout, Query, FAR_S, MAX_DIMS};
+use proptest::collection::vec;
+use proptest::prelude::*;
+use vengine::{enum_sub, prop_sub, Property, Tier};
+
+fn comp_strategy() -> impl Strategy<Value = Comp> {
+    (vec(-4i8..=4, MAX_DIMS), vec(-8i8..=3, MAX_DIMS), 1u8..=8)
+        .prop_map(|(centre, log_scale, share)| Comp { centre, log_scale, share })
+}
+
+fn dir_strategy() -> impl Strategy<Value = Vec<i8>> {
+    vec(-8i8..=8, MAX_DIMS)
+}
+
+fn query_strategy() -> impl Strategy<Value = Query> {
+    let s = 0u8..FAR_S.len() as u8;
+    prop_oneof![
+        2 => any::<u16>().prop_map(Query::Train),
+        2 => vec(any::<u16>(), MAX_DIMS).prop_map(Query::InBox),
+        4 => (any::<u16>(), s.clone(), dir_strategy()).prop_map(|(comp, s, dir)| Query::FarComp { comp, s, dir }),
+        4 => (s, dir_strategy()).prop_map(|(s, dir)| Query::FarAll { s, dir }),
+    ]
+}
+
+fn case_strategy(tier: Tier) -> impl Strategy<Value = Case> {
+    let layout = prop_oneof![
+        Just(Layout::Separated),
+        Just(Layout::Overlapping),
+        Just(Layout::Anisotropic),
+    ];
+    let degenerate = prop_oneof![
+        6 => Just(Degenerate::None),
+        1 => Just(Degenerate::ConstantColumn),
+        1 => Just(Degenerate::Quantised),
+    ];
+    let scale_idx = prop_oneof![3 => Just(0u8), 1 => Just(1u8), 1 => Just(2u8)];
+    let offset_idx = prop_oneof![3 => Just(0u8), 1 => Just(1u8), 1 => Just(2u8)];
+    let init = prop_oneof![Just(Init::KMeans), Just(Init::Random)];
+    let n_runs = prop_oneof![4 => Just(1u8), 1 => Just(2u8), 1 => Just(3u8)];
+    let max_iter = prop_oneof![1 => Just(1u32), 3 => Just(100u32), 10 => Just(500u32)];
+    let nmax = tier.pick(300usize, 600usize);
+    let data = (
+        1usize..=MAX_DIMS,
+        layout,
+        degenerate,
+        scale_idx,
+        offset_idx,
+        30usize..=nmax,
+        vec(comp_strategy(), 1..=4),
+        any::<u64>(),
+    );
+    let config = (1usize..=4, init, any::<u64>(), 0u8..3, 0u8..2, n_runs, max_iter);
+    (data, config, vec(query_strategy(), 4..=12)).prop_map(
+        |(
+            (dims, layout, degenerate, scale_idx, offset_idx, n, comps, data_seed),
+            (n_clusters, init, rng_seed, reg_idx, tol_idx, n_runs, max_iter),
+            queries,
+        )| Case {
+            dims,
+            layout,
+            degenerate,
+            scale_idx,
+            offset_idx,
+            n,
+            comps,
+            data_seed,
+            n_clusters,
+            init,
+            rng_seed,
+            reg_idx,
+            tol_idx,
+            n_runs,
+            max_iter,
+            queries,
+        },
+    )
+}
+
+/// Deterministic grid: every far level, from every generating component and from the whole data
+/// set, along an axis and along a diagonal, for a fixed family of data sets and every
+/// (n_clusters, init, reg_covar) combination.
+fn far_grid(tier: Tier) -> Vec<Case> {
+    let mut out = vec![];
+    let dims_list: &[usize] = match tier {
+        Tier::Quick => &[1, 2, 5],
+        Tier::Thorough => &[1, 2, 3, 4, 5, 6],
+    };
+    let layouts = [Layout::Separated, Layout::Overlapping, Layout::Anisotropic];
+    let mut counter = 0u64;
+    for &dims in dims_list {
+        for (li, layout) in layouts.iter().enumerate() {
+            for n_clusters in 1..=4usize {
+                for init in [Init::KMeans, Init::Random] {
+                    for reg_idx in 0..3u8 {
+                        counter += 1;
+                        let comps: Vec<Comp> = (0..3)
+                            .map(|ci| Comp {
+                                centre: (0..MAX_DIMS).map(|j| ((ci as i8) * 2 - 2) * if j % 2 == 0 { 1 } else { -1 }).collect(),
+                                log_scale: (0..MAX_DIMS).map(|j| ((j as i8 * 3 + ci as i8 * 2) % 12) - 8).collect(),
+                                share: 1 + ci as u8,
+                            })
+                            .collect();
+                        let mut queries = vec![Query::Train(0), Query::Train(40000), Query::InBox(vec![32768; MAX_DIMS])];
+                        for s in 0..FAR_S.len() as u8 {
+                            let axis: Vec<i8> = (0..MAX_DIMS).map(|j| if j == (s as usize) % dims { -1 } else { 0 }).collect();
+                            let diag: Vec<i8> = (0..MAX_DIMS).map(|j| if j % 2 == 0 { 3 } else { -2 }).collect();
+                            for comp in [0u16, 30000, 65535] {
+                                queries.push(Query::FarComp { comp, s, dir: if comp == 0 { axis.clone() } else { diag.clone() } });
+                            }
+                            queries.push(Query::FarAll { s, dir: axis });
+                            queries.push(Query::FarAll { s, dir: diag });
+                        }
+                        out.push(Case {
+                            dims,
+                            layout: *layout,
+                            degenerate: Degenerate::None,
+                            scale_idx: ((counter / 7) % 3) as u8,
+                            offset_idx: ((counter / 5) % 3) as u8,
+                            n: 60 + 30 * li + 20 * dims,
+                            comps,
+                            data_seed: 0xC10 + counter,
+                            n_clusters,
+                            init,
+                            rng_seed: counter,
+                            reg_idx,
+                            tol_idx: (counter % 2) as u8,
+                            n_runs: 1 + (counter % 5 == 0) as u8,
+                            max_iter: 500,
+                            queries,
+                        });
+                    }
+                }
+            }
+        }
+    }
+    out
+}
 
 pub fn property() -> Property {
-    Property { id: "C10", rule: "", assumptions: vec![], subs: vec![] }
+    Property {
+        id: "C10",
+        rule: "case = (1..=4 generating Gaussian components in 1..=6 dims: separated / overlapping / anisotropic with random rotation; \
+               global scale {1, 0.05, 20}, offset {0, 1e3, -1e4} scale units; optional constant column or grid-quantised rows; n 30..=300 (thorough 600); \
+               rows derived from a generated u64), configuration (n_clusters 1..=4, KMeans|Random init, rng seed, reg_covar {1e-6,1e-3,1e-1}, \
+               tolerance {1e-3,1e-5}, n_runs 1..=3, max_n_iterations {1,100,500}), 4..=12 queries (training rows, box-uniform, \
+               generating centre + s*sigma_max*u, data centroid + s*(radius+sqrt(reg))*u, s in {10,40,100,1e3,1e6}); plus a deterministic grid \
+               (dims x layout x n_clusters x init x reg_covar) that asks every far level from every component. \
+               Non-trivial = fit succeeded with >= 2 components and >= 1 query at least 40 standard deviations (Mahalanobis, fitted model) from every component; \
+               distinct = distinct canonical JSON of the case. Fits that return Err are counted as not judged (except max_n_iterations = 1, where Err is the required outcome)",
+        assumptions: vec![
+            "f64 only; covariance type Full (the only one linfa offers); observations are finite".into(),
+            "weights: each > 0, |sum - 1| <= 1e-9".into(),
+            "means inside the per-feature data range extended by 1e-9 * max(|lo|,|hi|,hi-lo) (they are convex combinations of rows)".into(),
+            "covariances: |C_ij - C_ji| <= 1e-12 sqrt(C_ii C_jj); the harness' own Cholesky of the symmetrised matrix must succeed; diag >= reg_covar (1-1e-9); \
+             'diagonal includes the regularisation' is also read as C - reg_covar*I positive semi-definite: smallest eigenvalue (own Jacobi) >= reg_covar (1-1e-9) - 1e-11 * largest eigenvalue".into(),
+            "precisions: max |P C - I| and max |C P - I| <= 2e-13 * p * cond(C) + 2e-13 (cond from own Jacobi eigenvalues; about 900 eps p cond, observed worst 2 eps p cond; DESIGN allowed 1e-6 cond)".into(),
+            "predict_proba rows: all entries finite, >= 0, |row sum - 1| <= 1e-9; predict(x) has a probability >= row maximum - 1e-12".into(),
+            "predict_proba is documented as the responsibilities: where the row is valid and the point is outside the exp-underflow domain it is compared with the posterior \
+             recomputed from weights/means/covariances (own Cholesky, max-shifted log-sum-exp) with tolerance 1e-9 + 2 sum_j post_j * 1e-12 cond_j (maha2_j + p); rows where that tolerance exceeds 1e-3 are not compared".into(),
+            "predict(x) is also compared with the most probable component of the reference posterior, judged only when the reference log-posterior margin exceeds 1e-6 + 1e-12 (cond_a (maha2_a+p) + cond_b (maha2_b+p)) (ties may be broken arbitrarily)".into(),
+            "rows whose largest reference weighted log-density is below -700 are the exp-underflow domain of a log-sum-exp without max-shift; failures there carry their own signatures (proba:far-underflow-*, predict:far-underflow-*)".into(),
+            "max_n_iterations = 1 can never satisfy the stopping rule (first lower-bound change is infinite), so Ok(model) there is a violation; every other Err is accepted without judging whether it was necessary".into(),
+            "a panic inside fit / predict / predict_proba on generated (finite, n >= n_clusters) input is a violation".into(),
+            "trusted base: ndarray, the harness' naive Cholesky / Jacobi / matmul (vengine::num)".into(),
+        ],
+        subs: vec![
+            prop_sub("fit_predict", 24000, 400000, case_strategy, oracle::check).chunks(16).require(&["fit_ok", "has_query_ge_40sd"]),
+            enum_sub("far_grid", far_grid, oracle::check).chunks(8),
+        ],
+    }
 }
